@@ -18,7 +18,7 @@ HOLDS, VIOLATION, UNRECOGNISED = "HOLDS", "VIOLATION", "UNRECOGNISED"
 
 class Result:
     def __init__(self, rule, func, role, status, detail="", where="", witness=None,
-                 nontrivial=True, facts=None, note=False, semantic=False):
+                 nontrivial=True, facts=None, note=False, semantic=None):
         self.rule = rule            # R-GUARD ...
         self.func = func            # 'ersatz.substitute'
         self.role = role            # structural role of the site (stable across line moves)
@@ -178,7 +178,10 @@ def run_property(pid, tier="quick", replay=None, repo_root=None, write_evidence=
     # every VIOLATION that is neither derived by an engine (semantic=True / SEMANTIC_RULES) nor an explicitly recognised deviation
     # (core.named) comes from comparing spellings and is subject to the rewrite gate
     gate_note = None
-    if any(r.status == VIOLATION and not (r.semantic or r.rule in sem_rules) for r in verdicts) and not os.environ.get("TMVERIF_NO_GATE"):
+    def _is_sem(r):
+        # explicit marking wins (semantic=True / False); unmarked findings follow the module's table
+        return r.semantic if r.semantic is not None else (r.rule in sem_rules)
+    if any(r.status == VIOLATION and not _is_sem(r) for r in verdicts) and not os.environ.get("TMVERIF_NO_GATE"):
         try:
             from . import canon
             ref = Repo(canon.REFERENCE_DIR)
@@ -186,7 +189,7 @@ def run_property(pid, tier="quick", replay=None, repo_root=None, write_evidence=
             if rewritten:
                 n_dn = 0
                 for r in verdicts:
-                    if r.status == VIOLATION and not (r.semantic or r.rule in sem_rules):
+                    if r.status == VIOLATION and not _is_sem(r):
                         r.status = UNRECOGNISED
                         r.detail = "[spelling-based rule; %s rewritten beyond a first-order edit, so this is not reported as a violation] %s" % (
                             ", ".join(rewritten[:3]), r.detail)
@@ -317,7 +320,7 @@ def run_property(pid, tier="quick", replay=None, repo_root=None, write_evidence=
                     "equivalence_fallback": equiv_note or "not needed (every rule reached a verdict of HOLDS directly)",
                     "rewrite_gate": gate_note or "no spelling-based finding to gate",
                     "path_gate": path_note or "no value-returning return path beyond the confirmed ones",
-                    "semantic_findings": sorted({r.rule for r in verdicts if r.semantic or r.rule in sem_rules}),
+                    "semantic_findings": sorted({r.rule for r in verdicts if (r.semantic if r.semantic is not None else r.rule in sem_rules)}),
                 },
                 "exhaustive": False,
             },
